@@ -87,6 +87,18 @@ def gen_cases(rng, thorough):
             sizes = boundary_case(rng, r, tail)
             if sizes:
                 cases.append(with_cuts(rng, sizes))
+    # a tail frame that ends exactly at, one short of, or one/two bytes past the boundary (the split decision's edge)
+    edge_rs = [27, 31, 40, 64, 100, 150, 1000] + [rng.randint(28, 30000) for _ in range(2 if not thorough else 12)]
+    if thorough:
+        edge_rs += [20000, 16400, 16500, 140, 141, 142]
+    for r in edge_rs:
+        for delta in (-1, 0, 1, 2):
+            t = next((t for t in range(max(16, r - 20), r + 4) if hdr(t) + t == r + delta), None)
+            if t is None:
+                continue
+            sizes = boundary_case(rng, r, [t, 16])
+            if sizes:
+                cases.append(with_cuts(rng, sizes))
     return cases
 
 
